@@ -103,13 +103,17 @@ package dnsserver
 //@ ensures result == uf.qtypeof(r.Req)
 //@ extern github.com/coredns/coredns/request Request.QClass
 //@ pure
+//@ ensures result == uf.qclassof(r.Req)
 //@ extern github.com/coredns/coredns/request Request.Name
 //@ pure
+//@ ensures result == uf.qnameof(r.Req)
 //@ extern github.com/coredns/coredns/request Request.QName
 //@ pure
 //@ extern github.com/coredns/coredns/request Request.IP
 //@ pure
 //@ ufun qtypeof(int) int
+//@ ufun qclassof(int) int
+//@ ufun qnameof(int) str
 
 //@ extern github.com/hashicorp/golang-lru Cache.Get
 //@ pure
@@ -156,6 +160,11 @@ package dnsserver
 //@ requires h.cacheConfig.Enabled ==> h.lru != nil
 //@ requires h.dnsdb != nil ==> dbInv(h.dnsdb) && closes[h.dnsdb.dbi] == 0 && h.dnsdb.refCount < 1000000000
 //@ ensures[queries] cnt["DNS_queries"] == old(cnt)["DNS_queries"] + 1
+// C12, the cache is invisible: the key under which an answer is cached determines the location id, the query
+// type, the query class and the name — two different (location, type, class, name) never share an entry.
+// (ol0, ol1, ot, oc, on) is any other tuple.
+//@ ghost ol0 int, ol1 int, ot int, oc int, on str
+//@ before Cache.Get#0 assert[key-injective] cacheKey == sprintf("%.3d%.3d%.3d%s", ol0, ol1, ot, oc, on) ==> ol0 == loc.LocID[0] && ol1 == loc.LocID[1] && ot == uf.qtypeof(state.Req) && oc == uf.qclassof(state.Req) && on == uf.qnameof(state.Req)
 //@ before FBDNSDB.writeAndLog#0 assert[badvers] a != nil && a.Rcode == dns.RcodeBadVers && a.Id == r.Id && a.Response
 //@ before FBDNSDB.writeAndLog#1 assert[hit-shape] resp != nil && resp.Id == r.Id && resp.Response
 //@ before FBDNSDB.writeAndLog#1 assert[hit-question] len(r.Question) >= 1 ==> len(resp.Question) == 1 && resp.Question[0] == r.Question[0] && resp.Opcode == r.Opcode
